@@ -8,8 +8,10 @@
 //   nodes  [{path:[name..], k:"none"|"dir"|"file"|"link", c:block-like content id, abs:bool, tg:[name..]}]
 //          below the container output directory /out (parents before children); also seeded random trees
 //          made by checks/C17.py (deeper, more entries) in the same form
-//   mnt    "none" | "outside" (/mnt) | "beneath" (/out/m): a read-only collection mount whose manifest is `mount`
-//   sec    "none" | "outside" (/sec) | "beneath" (/out/s): a secret mount
+//   mnt    "none" | "outside" (/mnt) | "beneath" (/out/m): a read-only collection mount whose manifest is `mount`,
+//          showing the subtree `mpath` of it (arvados.Mount.Path)
+//   sec    the container path of a secret mount ([] none; /sec; /out/s; /out/a/s ...): if it lies below /out and
+//          its parent directory exists, the secret's bytes are really there in the host directory
 // Event: {"ev":"copy","kind":"ok"|"error"|"panic","out":[stream..],"nb":[{"id":..,"segs":[[content id,off,len]..]}]}
 //   out: the manifest returned by Copy; blocks written during the copy get ids 9000+100k+size and are
 //   described in nb by the host file contents they hold (content bytes identify file content and offset).
@@ -46,7 +48,8 @@ type vC17Scenario struct {
 	ID    int          `json:"id"`
 	Nodes []vC17Node   `json:"nodes"`
 	Mnt   string       `json:"mnt"`
-	Sec   string       `json:"sec"`
+	MPath [][]int      `json:"mpath"`
+	Sec   [][]int      `json:"sec"`
 	Mount []vC10Stream `json:"mount"`
 }
 
@@ -181,20 +184,23 @@ func vC17Run(s *vC17Scenario) (ev vC10Ev) {
 	cp.keepClient = keep
 	switch s.Mnt {
 	case "outside":
-		cp.mounts["/mnt"] = arvados.Mount{Kind: "collection", PortableDataHash: vC17PDH}
+		cp.mounts["/mnt"] = arvados.Mount{Kind: "collection", PortableDataHash: vC17PDH, Path: vC17Join(s.MPath)}
 	case "beneath":
-		cp.mounts["/out/m"] = arvados.Mount{Kind: "collection", PortableDataHash: vC17PDH}
+		cp.mounts["/out/m"] = arvados.Mount{Kind: "collection", PortableDataHash: vC17PDH, Path: vC17Join(s.MPath)}
 		if err := os.Mkdir(filepath.Join(host, "m"), 0755); err != nil {
 			panic(err)
 		}
 	}
-	switch s.Sec {
-	case "outside":
-		cp.secretMounts["/sec"] = arvados.Mount{Kind: "text", Content: "xyzzy"}
-	case "beneath":
-		cp.secretMounts["/out/s"] = arvados.Mount{Kind: "text", Content: "xyzzy"}
-		if err := os.WriteFile(filepath.Join(host, "s"), []byte("xyzzy"), 0600); err != nil {
-			panic(err)
+	if len(s.Sec) > 0 {
+		root := "/" + vC17Join(s.Sec)
+		cp.secretMounts[root] = arvados.Mount{Kind: "text", Content: "xyzzy"}
+		if len(s.Sec) > 1 && vC10Str(s.Sec[0]) == "out" {
+			hp := filepath.Join(host, vC17Join(s.Sec[1:]))
+			if fi, err := os.Lstat(filepath.Dir(hp)); err == nil && fi.IsDir() { // a real directory, not a link to one
+				if err := os.WriteFile(hp, []byte("xyzzy"), 0600); err != nil {
+					panic(err)
+				}
+			}
 		}
 	}
 	var text string
@@ -244,7 +250,7 @@ func TestVerifC17(t *testing.T) {
 	})
 	tw := vNewTraceWriter(os.Getenv("VERIF_TRACES"))
 	for _, s := range scns {
-		tw.Write(vC10Ev{"ev": "reset", "scn": s.ID, "nodes": s.Nodes, "mnt": s.Mnt, "sec": s.Sec})
+		tw.Write(vC10Ev{"ev": "reset", "scn": s.ID, "nodes": s.Nodes, "mnt": s.Mnt, "mpath": s.MPath, "sec": s.Sec, "mount": s.Mount})
 		tw.Write(vC17Run(s))
 	}
 	tw.Close()
